@@ -706,6 +706,12 @@ class Translator:
         pc = d.get('parentDeclContextId')
         if pc and pc in self.qname:
             return self.qname[pc]
+        if d.get('kind') in ('CXXConstructorDecl', 'CXXDestructorDecl'):
+            # a constructor matched by the dump filter on its own has no parent node: its class is the record of the same name
+            nm = d.get('name', '').lstrip('~')
+            recs = [x for x in self.byname.get(nm, []) if x.get('kind') == 'CXXRecordDecl']
+            if recs:
+                return self.qname.get(recs[0]['id'], nm)
         raise Unsupported('class of method %s' % d.get('name'))
 
     def is_byval(self, t):
@@ -1283,6 +1289,9 @@ class Translator:
 
     def e_MemberExpr(self, n):
         base = n['inner'][0]
+        if not n.get('name'):
+            # implicit access to an anonymous struct/union member (C anonymous members: the field names are visible in the parent)
+            return self.expr(base)
         if self.qt(n) == '<bound member function type>':
             raise Unsupported('bound member function outside call')
         bcls = self.objtype(base)
